@@ -1,9 +1,33 @@
 package main
 
 import (
+	"bytes"
+	"encoding/json"
 	"fmt"
 	"os"
+	"os/exec"
+	"path/filepath"
+	"strings"
 )
+
+// Replay templates: /verif/replay/index.json maps a function (full name as in obligation names) to an
+// in-package test file that rebuilds the counterexample's inputs, calls the real function and checks the
+// property's own oracle. The test file is injected with `go test -overlay` and never written into /repo.
+type replayEntry struct {
+	Pkg  string `json:"pkg"`  // package directory relative to the repository root
+	File string `json:"file"` // template under /verif/replay/
+	Test string `json:"test"` // test function name
+}
+
+func loadReplayIndex() map[string]replayEntry {
+	m := map[string]replayEntry{}
+	data, err := os.ReadFile(filepath.Join(verifDir, "replay", "index.json"))
+	if err != nil {
+		return m
+	}
+	json.Unmarshal(data, &m)
+	return m
+}
 
 // tryReplay runs the counterexample of a failed obligation against the real code when a replay
 // template exists for the function; it returns the suffix for the VIOLATION line.
@@ -11,22 +35,86 @@ func (run *checkRun) tryReplay(o *ObResult, path string) string {
 	if len(o.model) == 0 {
 		return "no-failing-input-found"
 	}
-	return replayOnRealCode(run, o, path)
+	verdict, out := runReplay(path)
+	// record the outcome in the replay file
+	var rf map[string]interface{}
+	if data, err := os.ReadFile(path); err == nil && json.Unmarshal(data, &rf) == nil {
+		rf["replay"] = verdict
+		rf["replay_output"] = truncate(out, 3000)
+		if data, err := json.MarshalIndent(rf, "", " "); err == nil {
+			os.WriteFile(path, append(data, '\n'), 0o644)
+		}
+	}
+	switch verdict {
+	case "reproduced":
+		return "replayed-on-real-code"
+	}
+	return "no-failing-input-found"
+}
+
+// runReplay executes the replay test for a counterexample file. verdict: reproduced | not-reproduced | no-template | error
+func runReplay(path string) (string, string) {
+	data, err := os.ReadFile(path)
+	if err != nil {
+		return "error", err.Error()
+	}
+	var rf replayFile
+	if err := json.Unmarshal(data, &rf); err != nil {
+		return "error", err.Error()
+	}
+	idx := loadReplayIndex()
+	ent, ok := idx[rf.Function]
+	if !ok {
+		return "no-template", "no replay template for " + rf.Function
+	}
+	tmpl, err := os.ReadFile(filepath.Join(verifDir, "replay", ent.File))
+	if err != nil {
+		return "error", err.Error()
+	}
+	tmp, err := os.MkdirTemp("", "akvreplay")
+	if err != nil {
+		return "error", err.Error()
+	}
+	defer os.RemoveAll(tmp)
+	testFile := filepath.Join(tmp, "zz_akv_replay_test.go")
+	os.WriteFile(testFile, tmpl, 0o644)
+	target := filepath.Join(repoDir, ent.Pkg, "zz_akv_replay_test.go")
+	ov, _ := json.Marshal(map[string]interface{}{"Replace": map[string]string{target: testFile}})
+	ovFile := filepath.Join(tmp, "overlay.json")
+	os.WriteFile(ovFile, ov, 0o644)
+	cmd := exec.Command(filepath.Join(goBin, "go"), "test", "-overlay", ovFile, "-vet=off", "-count=1", "-timeout", "60s", "-run", "^"+ent.Test+"$", "./"+ent.Pkg)
+	cmd.Dir = repoDir
+	cmd.Env = append(os.Environ(), "PATH="+goBin+":"+os.Getenv("PATH"), "GOTOOLCHAIN=local", "GOFLAGS=-mod=mod", "GOPROXY=off", "GOSUMDB=off",
+		"AKV_REPLAY_FILE="+path)
+	var buf bytes.Buffer
+	cmd.Stdout = &buf
+	cmd.Stderr = &buf
+	err = cmd.Run()
+	out := buf.String()
+	if strings.Contains(out, "AKV-REPLAY: VIOLATION") {
+		return "reproduced", out
+	}
+	if err == nil && strings.Contains(out, "ok") {
+		return "not-reproduced", out
+	}
+	if strings.Contains(out, "AKV-REPLAY: OK") {
+		return "not-reproduced", out
+	}
+	return "error", out
 }
 
 func cmdReplay(args []string) int {
 	if len(args) < 1 {
 		usage()
 	}
-	data, err := os.ReadFile(args[0])
-	if err != nil {
-		fmt.Fprintln(os.Stderr, err)
-		return 2
+	verdict, out := runReplay(args[0])
+	fmt.Println(out)
+	fmt.Println("replay verdict:", verdict)
+	if verdict == "reproduced" {
+		return 1
 	}
-	os.Stdout.Write(data)
-	return replayFromFile(args[0])
+	if verdict == "not-reproduced" {
+		return 0
+	}
+	return 2
 }
-
-func replayOnRealCode(run *checkRun, o *ObResult, path string) string { return "replay-not-implemented" }
-
-func replayFromFile(path string) int { return 0 }
